@@ -1,16 +1,21 @@
 """Worker commands for C17 (implementation side).
 
 CACHE <hex ops>            run an operation history against the real `CreateTableStatementGetter` in a fresh temporary
-                           directory (ops joined by `;`:  new | nodisk | get:<hex name> | crash:<steps>:<flushed>:<hex name>);
+                           directory (ops joined by `;`:  new | nodisk | get:<hex name> | crash:<steps>:<flushed>:<hex name> |
+                           put:<hex file name>:<hex text> = somebody else writes a file into the cache directory);
                            same answer format as `lean/MsqModel/Driver/CmdCache.lean`.
+QUOTE <hex name>           the name of the file `save_to_disk` creates for a table (observed in a fresh directory)
+STEM <hex file name>       the table name `__init__` reads out of a directory entry of that name (`none` if it is ignored)
 LINTHR <k> <n> <dialect> <hex sql>…   (implementation only) lineage requests from k threads on one shared analyzer, see `cmd_linthr`
 LINH <dialect> <shared|fresh> <hex sql>…   (implementation only) a history of lineage requests in one process, see `cmd_linh`
 LIN <dialect> <hex sql>    (implementation only) table lineage of every SELECT / INSERT…SELECT statement of the text with the
                            provider cold, warm in memory, warm on disk in a new instance, and without a directory: the
                            results, and the provider call log of each phase.
 """
-import os, shutil, sys, tempfile
+import os, shutil, sys, tempfile, urllib.parse
 import canon
+
+ABS_SANDBOX = "/tmp/c17_abs"        # absolute table names are exercised only below this directory
 
 
 def hx(s):
@@ -40,7 +45,8 @@ def provider(name):
 
 
 def path_class(name):
-    """the model's `Cache.resolve` classification, used to refuse names that would leave the sandbox directories"""
+    """where the RAW name would lead if it were pasted into a path (the model's `Cache.resolveP` classification; the code before /repo 69f92c3);
+    used by `LIN` to refuse names that would leave the sandbox directories should the encoding be lost"""
     p = name + ".sql"
     if "\0" in p:
         return "nul"
@@ -54,6 +60,36 @@ def path_class(name):
     if comps[0] == "..":
         return "parent" if len(comps) == 2 else "outside"
     return "via"
+
+
+def sandbox_class(name):
+    """guard of the `CACHE` histories.  `long`: the encoded file name exceeds what a file system takes (the model has no length limit).  `outside`:
+    the name, pasted RAW into a path, would lead out of the scratch directories — such names are refused although the encoding keeps every name inside
+    the cache directory: a changed implementation under test may have lost the encoding.  Absolute names are allowed below ABS_SANDBOX, `..` up to the
+    scratch directory above the cache directory."""
+    try:
+        if len(urllib.parse.quote(name, safe="")) + len(".sql.tmp") > 255:
+            return "long"
+    except UnicodeEncodeError:
+        return "outside"
+    if "\0" in name:
+        return "ok"
+    comps = (name + ".sql").split("/")
+    if name.startswith("/"):
+        return "ok" if name.startswith(ABS_SANDBOX + "/") and ".." not in comps else "outside"
+    depth = 1                                   # the cache directory is one level below the scratch directory
+    for c in comps[:-1]:
+        if c in ("", "."):
+            continue
+        depth += -1 if c == ".." else 1
+        if depth < 0:
+            return "outside"
+    return "outside" if comps[-1] == ".." else "ok"
+
+
+def fs_name_ok(b):
+    """can these bytes be the name of a directory entry?"""
+    return 0 < len(b) <= 255 and b"/" not in b and b"\0" not in b and b not in (b".", b"..")
 
 
 class Crash(BaseException):
@@ -82,17 +118,18 @@ class CrashingFile:
         return False
 
 
-def listing(d, skip=()):
+def listing(d, skip=(), prefix=""):
     out = []
     for fn in os.listdir(d):
         if fn in skip:
             continue
         p = os.path.join(d, fn)
+        h = prefix + os.fsencode(fn).hex()
         if os.path.isfile(p):
             with open(p, "r", encoding="UTF-8", newline="") as f:
-                out.append(hx(fn) + ":" + str(len(f.read())))
+                out.append(h + ":" + str(len(f.read())))
         else:
-            out.append(hx(fn) + ":dir")
+            out.append(h + ":dir")
     return ",".join(sorted(out))
 
 
@@ -100,8 +137,12 @@ def run_ops(ops):
     from metasequoia_sql.analyzer import tool
     names = [unhx(o.split(":")[-1]) for o in ops if o.startswith(("get:", "crash:"))]
     for n in names:
-        if path_class(n) in ("outside", "long"):
+        if sandbox_class(n) != "ok":
             return "UNMODELLED path"
+    for o in ops:
+        if o.startswith("put:") and not (len(o.split(":")) == 3 and fs_name_ok(bytes.fromhex(o.split(":")[1]))):
+            return "UNMODELLED file name"
+    os.makedirs(ABS_SANDBOX, exist_ok=True)
     outer = tempfile.mkdtemp(prefix="c17_")
     cache = os.path.join(outer, "cache")
     os.mkdir(cache)
@@ -138,8 +179,16 @@ def run_ops(ops):
         for op in ops:
             parts = op.split(":")
             if parts[0] in ("new", "nodisk") and len(parts) == 1:
-                inst = G(cache if parts[0] == "new" else None)
-                out.append("I[" + ",".join(sorted(set(hx(n) for n in inst._disk_cache))) + "]")
+                try:
+                    inst = G(cache if parts[0] == "new" else None)
+                    out.append("I[" + ",".join(sorted(set(hx(n) for n in inst._disk_cache))) + "]")
+                except Exception as e:
+                    inst = None
+                    out.append("E:" + canon.err_kind(e).replace(" ", "_"))
+            elif parts[0] == "put":
+                with real_open(os.path.join(os.fsencode(cache), bytes.fromhex(parts[1])), "w", encoding="UTF-8", newline="") as f:
+                    f.write(unhx(parts[2]))
+                out.append("P")
             elif parts[0] in ("get", "crash"):
                 if inst is None:
                     out.append("NOINSTANCE")
@@ -169,15 +218,66 @@ def run_ops(ops):
                         del tool.open
             else:
                 out.append("BADOP")
-        return ("OK " + " ".join(out) + " calls=" + ",".join(hx(n) for n in calls) + " dir=" + listing(cache)
-                + " parent=" + listing(outer, skip=("cache",)))
+        above = [x for x in (listing(outer, skip=("cache",)), listing(ABS_SANDBOX, prefix="2f")) if x]      # `2f…` = below ABS_SANDBOX
+        return ("OK " + " ".join(out) + " calls=" + ",".join(hx(n) for n in calls) + " dir=" + listing(cache) + " parent=" + ",".join(above))
     finally:
         shutil.rmtree(outer, ignore_errors=True)
+        for fn in os.listdir(ABS_SANDBOX) if os.path.isdir(ABS_SANDBOX) else []:
+            try:
+                os.remove(os.path.join(ABS_SANDBOX, fn))
+            except OSError:
+                pass
 
 
 def cmd_cache(parts):
     ops = canon.unhex(parts[1]).split(";")
     return run_ops(ops)
+
+
+def cmd_quote(parts):
+    """QUOTE <hex name>: `save_to_disk(name, …)` on the real class in a fresh directory; the file it leaves"""
+    from metasequoia_sql.analyzer import tool
+    name = canon.unhex(parts[1])
+    if sandbox_class(name) != "ok":
+        return "UNMODELLED path"
+    outer = tempfile.mkdtemp(prefix="c17q_")
+    cache = os.path.join(outer, "cache")
+    os.mkdir(cache)
+    try:
+        class G(tool.CreateTableStatementGetter):
+            def get_sql(self, full_table_name):
+                return ""
+        G(cache).save_to_disk(name, "x")
+        got = os.listdir(cache)
+        if len(got) != 1 or os.listdir(outer) != ["cache"]:
+            return "OK files=%s above=%s" % (",".join(sorted(os.fsencode(f).hex() for f in got)), listing(outer, skip=("cache",)))
+        return "OK " + os.fsencode(got[0]).hex()
+    except Exception as e:
+        return canon.err_kind(e)
+    finally:
+        shutil.rmtree(outer, ignore_errors=True)
+
+
+def cmd_stem(parts):
+    """STEM <hex file name>: a directory holding one entry of that name; what `__init__` lists"""
+    from metasequoia_sql.analyzer import tool
+    fn = bytes.fromhex(parts[1]) if parts[1] != "-" else b""
+    if not fs_name_ok(fn):
+        return "UNMODELLED file name"
+    outer = tempfile.mkdtemp(prefix="c17s_")
+    try:
+        with open(os.path.join(os.fsencode(outer), fn), "w") as f:
+            f.write("x")
+
+        class G(tool.CreateTableStatementGetter):
+            def get_sql(self, full_table_name):
+                return ""
+        got = sorted(G(outer)._disk_cache)
+        return "OK none" if not got else ("OK some " + hx(got[0]) if len(got) == 1 else "OK many")
+    except Exception as e:
+        return canon.err_kind(e)
+    finally:
+        shutil.rmtree(outer, ignore_errors=True)
 
 
 # ---------------------------------------------------------------------------------------------------------------------
@@ -421,4 +521,4 @@ def cmd_linthr(parts):
     return "OK calls=%d mismatches=%d first=%s got=%s alone=%s inflight=%s" % (calls[0], len(mism), hx(texts[idx]), got, alone[idx], ",".join(hx(texts[j]) for j in others))
 
 
-COMMANDS = {"CACHE": cmd_cache, "LIN": cmd_lin, "LINH": cmd_linh, "LINTHR": cmd_linthr}
+COMMANDS = {"CACHE": cmd_cache, "QUOTE": cmd_quote, "STEM": cmd_stem, "LIN": cmd_lin, "LINH": cmd_linh, "LINTHR": cmd_linthr}
